@@ -64,7 +64,28 @@ type SrvScenario struct {
 	Ops []SrvOp `json:"ops"`
 }
 
-var srvTargets = []string{"a", "b"}
+// srvTargets are the targets the cache of the server part knows: a, b and
+// every x+joiner+y over {a,b} (so that a target can be a twin of target +
+// origin / first element).
+var srvTargets = func() []string {
+	out := []string{"a", "b"}
+	for _, j := range Joiners {
+		for _, x := range []string{"a", "b"} {
+			for _, y := range []string{"a", "b"} {
+				out = append(out, x+j+y)
+			}
+		}
+	}
+	return out
+}()
+
+var srvTargetSet = func() map[string]bool {
+	m := map[string]bool{}
+	for _, s := range srvTargets {
+		m[s] = true
+	}
+	return m
+}()
 
 type fakeStream struct {
 	grpc.ServerStream // nil: only Context/Send/Recv are used by the server
@@ -149,6 +170,10 @@ type srvStats struct {
 	pathOrigin, prefOrigin, keys, legacy, updatesOnly bool
 	offeredSome, offeredNone, sharedPathSurvivor      bool
 	excludedDouble, excludedStale                     int
+	// the classes added with the odd strings / derived paths / sizes
+	oddString, emptyString, twins, twinsInList, oddHit bool
+	bigList, repeatInList, bigNotif, longPath, crowd   bool
+	oddTarget, twinNotOffered                          bool
 }
 
 func (s srvStats) labels() []string {
@@ -176,6 +201,18 @@ func (s srvStats) labels() []string {
 	add(s.offeredNone, "notification-offered-to-nobody")
 	add(s.sharedPathSurvivor, "other-client-at-same-path-still-offered")
 	add(s.excludedDouble+s.excludedStale > 0, "known-class-excluded")
+	add(s.oddString, "index-string-with-joiner-or-odd")
+	add(s.emptyString, "empty-index-string")
+	add(s.twins, "twin-paths-registered")
+	add(s.twinsInList, "twin-paths-in-one-list")
+	add(s.oddHit, "odd-subscription-path-compatible-with-a-notification")
+	add(s.twinNotOffered, "notification-compatible-with-one-twin-only")
+	add(s.bigList, "list-with-20plus-paths")
+	add(s.repeatInList, "list-repeats-a-path")
+	add(s.bigNotif, "notification-with-5plus-entries")
+	add(s.longPath, "path-with-6plus-elements")
+	add(s.crowd, "path-registered-by-3plus-clients")
+	add(s.oddTarget, "target-with-joiner")
 	return l
 }
 
@@ -227,6 +264,12 @@ func runServerInBubble(sc *SrvScenario, open map[string]bool) (st srvStats, err 
 	defer func() { st.excludedStale = len(staleTolerated) }()
 	removedAt := map[string]bool{}
 	leaves := &ctree.Tree{}
+	var rc regCensus
+	defer func() {
+		odd, empty, twin, long, crowd := rc.flags()
+		st.oddString, st.emptyString, st.twins, st.crowd = st.oddString || odd, st.emptyString || empty, twin, crowd
+		st.longPath = st.longPath || long
+	}()
 
 	defer func() {
 		// No goroutine may outlive the bubble, whatever happened.
@@ -357,6 +400,15 @@ func runServerInBubble(sc *SrvScenario, open map[string]bool) (st srvStats, err 
 			default:
 			}
 			live[op.Client] = &liveSub{stream: fs, queries: refQueries(l), statKey: fmt.Sprintf("%s:%p", addr, fs.req)}
+			for _, q := range live[op.Client].queries {
+				rc.add(op.Client, q)
+			}
+			if big, rep, tw := listFlags(l); big || rep || tw {
+				st.bigList, st.repeatInList, st.twinsInList = st.bigList || big, st.repeatInList || rep, st.twinsInList || tw
+			}
+			if l.Prefix.Target != "a" && l.Prefix.Target != "b" && l.Prefix.Target != Glob {
+				st.oddTarget = true
+			}
 		case "end":
 			if live[op.Client] == nil {
 				break
@@ -385,6 +437,17 @@ func runServerInBubble(sc *SrvScenario, open map[string]bool) (st srvStats, err 
 			srv.Update(leaves.GetLeaf(at))
 			synctest.Wait()
 			entries := op.Notif.entryPaths(refIndex(op.NPrefix, true))
+			if len(entries) >= 5 {
+				st.bigNotif = true
+			}
+			for _, p := range entries {
+				if anyOdd(p) {
+					st.oddString = true
+				}
+				if len(p) >= 6 {
+					st.longPath = true
+				}
+			}
 			stats := srv.ClientStats()
 			var ids []int
 			for c := range live {
@@ -401,14 +464,29 @@ func runServerInBubble(sc *SrvScenario, open map[string]bool) (st srvStats, err 
 				default:
 				}
 				compat := 0
+				var hit, miss [][]string
 				for _, q := range ls.queries {
 					if compatibleAny(q, entries) {
 						compat++
+						hit = append(hit, q)
 						if removedAt[key(q)] {
 							st.sharedPathSurvivor = true
 						}
+						if anyOdd(q[1:]) {
+							st.oddHit = true
+						}
 					} else {
 						anyIncompat = true
+						miss = append(miss, q)
+					}
+				}
+				if len(hit) > 0 && len(miss) > 0 && len(ls.queries) <= 12 {
+					for _, h := range hit {
+						for _, m := range miss {
+							if twins([][]string{h, m}) {
+								st.twinNotOffered = true
+							}
+						}
 					}
 				}
 				coal := stats[ls.statKey].CoalesceCount
